@@ -356,3 +356,178 @@ Proof. vm_compute. reflexivity. Qed.
 
 Example zenv_good : Forall (fun c => canonical Z c /\ prunedb Z.eqb c = true) zenv.
 Proof. repeat constructor; simpl; lia. Qed.
+
+(* ------------------------------------------------------------------ theorems of the other developments cited by
+   the justification table (Model/Ctor.v: JustifiedBy).  Each citation is a corollary closed with the
+   cited theorem's proof (the lemma its Props statement is `exact` of), so a citation whose theorem
+   disappears or changes its statement no longer compiles; Props.C06.every_cited_theorem_exists ties
+   the names in the table to this registry. *)
+From Verif Require Py NpIndex CooIndex CooIndexNormP CooIndexP CooIndexArrP ShapeOps NpShapeOps ShapeOpsP
+  Join NpJoin JoinP Convert ConvertG ConvertP Reduce NpReduce ReduceP ReduceGcxsP Dot NpDot DotP Npz S_npz NpzP.
+
+(* C02.coo_getitem_den *)
+Lemma cite_coo_getitem_basic (V : Type) (kf : nat -> nat) (x : coo V) (ix : NpIndex.index) sh' g (y : coo V) :
+  canonical V x -> CooIndexNormP.shape_okb (c_shape x) = true -> CooIndexNormP.no_zero_step ix = true ->
+  CooIndexP.basic ix = true ->
+  NpIndex.np_index (c_shape x) ix = Py.Ok (sh', g) -> CooIndex.getitem kf x ix = Py.Ok (CooIndex.GArr y) ->
+  canonical V y.
+Proof.
+  intros H1 H2 H3 H4 E1 E2. pose proof (CooIndexP.coo_getitem_basic_proof V kf x ix H1 H2 H3 H4) as H.
+  rewrite E1, E2 in H. apply H.
+Qed.
+
+(* C02.coo_getitem_one_array_partial *)
+Lemma cite_coo_getitem_one_array (V : Type) (kf : nat -> nat) (x : coo V) (ix : NpIndex.index) sh' g (y : coo V) :
+  canonical V x -> CooIndexNormP.shape_okb (c_shape x) = true -> CooIndexNormP.no_zero_step ix = true ->
+  CooIndexArrP.one_array ix = true -> CooIndexNormP.d29_clause (c_shape x) ix = true ->
+  NpIndex.np_index (c_shape x) ix = Py.Ok (sh', g) -> CooIndex.getitem kf x ix = Py.Ok (CooIndex.GArr y) ->
+  canonical V y.
+Proof.
+  intros H1 H2 H3 H4 H5 E1 E2. pose proof (CooIndexArrP.coo_getitem_one_array_proof V kf x ix H1 H2 H3 H4 H5) as H.
+  rewrite E1, E2 in H. apply H.
+Qed.
+
+(* C08.broadcast_to_den / broadcast_to_sorted_rule_sound *)
+Lemma cite_broadcast_to_canonical (V : Type) (veqb : V -> V -> bool) (x r : coo V) (target : shape) :
+  canonical V x -> NpShapeOps.np_broadcast_ok (c_shape x) target = true ->
+  ShapeOps.coo_broadcast_to x target = Py.Ok r -> canonical V r.
+Proof.
+  intros H1 H2 E. destruct (ShapeOpsP.broadcast_to_den_proof V veqb x H1 target H2) as [r' [E' [_ [_ [Hc _]]]]].
+  rewrite E in E'. injection E' as <-. exact Hc.
+Qed.
+
+Lemma cite_broadcast_to_sorted_rule (V : Type) (x : coo V) (params : list (option bool)) (bs : shape) :
+  canonical V x -> ShapeOpsP.aligned params (c_shape x) bs ->
+  ShapeOps.adjacent (ShapeOps.true_positions params 0) = true ->
+  StronglySorted lex_lt (map fst (ShapeOps.expand_entries params bs (entries x))).
+Proof. intros. apply ShapeOpsP.broadcast_to_sorted_rule_sound_proof; assumption. Qed.
+
+(* C09.coo_concat_canonical / coo_stack_canonical / indptr_splice_wf *)
+Lemma cite_coo_concat_canonical (V : Type) (veqb : V -> V -> bool) (vzero : V) (vadd : V -> V -> V)
+      (a : coo V) (r : list (coo V)) (axis : Z) (k : nat) (c : coo V) :
+  (forall a b, veqb a b = true <-> a = b) ->
+  NpJoin.np_norm_axis axis (Join.ndim_of V a) = Some k -> Forall (JoinP.cwf V) (a :: r) ->
+  Forall (fun x => JoinP.same_off k (c_shape a) (c_shape x)) r -> Forall (fun x => c_fill x = c_fill a) r ->
+  Join.coo_concatenate_src V veqb vzero vadd (Some axis) (a :: r) = Py.Ok c -> canonical V c.
+Proof.
+  intros He H1 H2 H3 H4 E. destruct (JoinP.coo_concat_canonical_proof V veqb He vzero vadd a r axis k H1 H2 H3 H4) as [c' [E' Hc]].
+  rewrite E in E'. injection E' as <-. exact Hc.
+Qed.
+
+Lemma cite_coo_stack_canonical (V : Type) (veqb : V -> V -> bool) (vzero : V) (vadd : V -> V -> V)
+      (a : coo V) (r : list (coo V)) (axis : Z) (k : nat) (c : coo V) :
+  (forall a b, veqb a b = true <-> a = b) ->
+  NpJoin.np_norm_axis axis (Join.ndim_of V a + 1) = Some k -> Forall (JoinP.cwf V) (a :: r) ->
+  Forall (fun x => c_shape x = c_shape a) r -> Forall (fun x => c_fill x = c_fill a) r ->
+  Join.coo_stack_src V veqb vzero vadd axis (a :: r) = Py.Ok c -> canonical V c.
+Proof.
+  intros He H1 H2 H3 H4 E. destruct (JoinP.coo_stack_canonical_proof V veqb He vzero vadd a r axis k H1 H2 H3 H4) as [c' [E' Hc]].
+  rewrite E in E'. injection E' as <-. exact Hc.
+Qed.
+
+Lemma cite_indptr_splice_wf (members : list (list Z * Z)) :
+  members <> [] -> Forall (fun m => Join.indptr_ok (fst m) (snd m)) members ->
+  Join.indptr_ok (Join.splice members) (NpJoin.zsum (map snd members)).
+Proof. intros H1 H2. apply (JoinP.indptr_splice_wf_proof members H1 H2). Qed.
+
+(* C05.gcxs_from_coo_wf / change_axes_wf / change_axes_fits *)
+Lemma cite_gcxs_from_coo_wf (V : Type) (veqb : V -> V -> bool) (add : V -> V -> V) (c : coo V) (ca : list Z) :
+  canonical V c -> shape_ok (c_shape c) -> ConvertG.axes_ok (c_shape c) ca ->
+  gcxs_wfb (Convert.gcxs_from_coo c ca) = true.
+Proof. apply ConvertG.gcxs_from_coo_wf_proof; assumption. Qed.
+
+Lemma cite_change_axes_wf_fits (V : Type) (veqb : V -> V -> bool) (add : V -> V -> V) (c : coo V) (ca ca' : list Z) :
+  canonical V c -> shape_ok (c_shape c) -> (2 <= length (c_shape c))%nat ->
+  Convert.caxes_okb (Z.of_nat (length (c_shape c))) ca = true ->
+  Convert.caxes_okb (Z.of_nat (length (c_shape c))) ca' = true -> ca' <> ca ->
+  let g := Convert.gcxs_change_axes (Convert.gcxs_from_coo c ca) ca' in
+  gcxs_wfb g = true
+  /\ Convert.fitsb (Convert.transpose_capacity (c_shape c) ca' (Z.of_nat (length (c_data c)))) (g_indptr g) = true.
+Proof.
+  intros H1 H2 H3 H4 H5 H6. split.
+  - apply (ConvertP.change_axes_wf_proof V veqb add); assumption.
+  - apply (ConvertP.change_axes_fits_proof V c ca ca' H1 H2 H3 H4 H5 H6).
+Qed.
+
+(* C03.gcxs_reduce_den_partial *)
+Lemma cite_gcxs_reduce_wf (V : Type) (veqb : V -> V -> bool) (op : V -> V -> V) (cast : V -> V)
+      (sup : option (V -> Z -> V)) (ident : option V) (g : gcxs V) (ax : NpReduce.axis_arg) (kd : bool) r :
+  (forall a b, veqb a b = true <-> a = b) ->
+  (forall a b c, op a (op b c) = op (op a b) c) -> (forall a b, op a b = op b a) ->
+  (forall a b, cast (op (cast a) (cast b)) = op (cast a) (cast b)) ->
+  (forall s f, sup = Some s -> s f 1 = cast f) ->
+  (forall s f k, sup = Some s -> 1 <= k -> s f (k + 1) = op (s f k) (cast f)) ->
+  ReduceGcxsP.gcxs_ok V g -> shape_ok (g_shape g) -> g_shape g <> [] ->
+  (forall nax, Reduce.norm_axes (Reduce.zlen (g_shape g)) ax = Py.Ok nax -> Reduce.gcxs_axes_ok nax = true) ->
+  Reduce.gcxs_reduce V veqb op cast sup ident ax kd g = Py.Ok r -> ReduceP.rres_wf V veqb r.
+Proof.
+  intros He A1 A2 A3 S1 S2 G1 G2 G3 G4 E.
+  pose proof (ReduceGcxsP.gcxs_reduce_den_proof V veqb He op A1 A2 cast A3 sup ident S1 S2 g ax kd G1 G2 G3 G4) as H.
+  rewrite E in H. destruct H as [osh [gg [_ [_ [_ Hw]]]]]. exact Hw.
+Qed.
+
+(* C04.spcoo_den / spgemm_rows_sorted / csc_ndarray_rows_sorted *)
+Lemma cite_spcoo_nodup (V : Type) (vzero : V) (vadd vmul : V -> V -> V) (n_row n_in n_col : Z) (a b : Dot.csr V) rows cols data :
+  NpDot.comm_semiring vzero vadd vmul ->
+  Dot.csr_wfb n_row n_in a = true -> Dot.csr_wfb n_in n_col b = true ->
+  Dot.dot_coo_coo V vzero vadd vmul n_row n_col a b = Dot.KOk (rows, cols, data) ->
+  NoDup (combine rows cols) /\ length rows = length data /\ length cols = length data.
+Proof.
+  intros Hs Ha Hb E. destruct (DotP.spcoo_den_proof V vzero vadd vmul Hs n_row n_in n_col a b Ha Hb)
+    as [rows' [cols' [data' [E' [L1 [L2 [Hn _]]]]]]].
+  rewrite E in E'. injection E' as <- <- <-. auto.
+Qed.
+
+Lemma cite_spgemm_rows_sorted (V : Type) (vzero : V) (vadd vmul : V -> V -> V) (n_row n_in n_col : Z) (a b r : Dot.csr V) :
+  Dot.csr_wfb n_row n_in a = true -> Dot.csr_wfb n_in n_col b = true ->
+  Dot.dot_csr_csr V vzero vadd vmul n_row n_col a b = Dot.KOk r -> Dot.csr_wfb n_row n_col r = true.
+Proof.
+  intros Ha Hb E. destruct (DotP.spgemm_rows_sorted_proof V vzero vadd vmul n_row n_in n_col a b Ha Hb) as [r' [E' H]].
+  rewrite E in E'. injection E' as <-. exact H.
+Qed.
+
+Lemma cite_csc_ndarray_rows_sorted (V : Type) (vzero : V) (vadd vmul : V -> V -> V) (veqb : V -> V -> bool)
+      (a r : Dot.csr V) (b : Z -> Z -> V) (n_in m p : Z) :
+  NpDot.comm_semiring vzero vadd vmul -> (forall x, veqb x vzero = true -> x = vzero) ->
+  Dot.csr_wfb n_in m a = true -> 0 <= p ->
+  Dot.dot_csc_ndarray_sparse V vzero vadd vmul veqb m n_in p a b = Dot.KOk r -> Dot.csr_wfb p m r = true.
+Proof.
+  intros Hs Hv Ha Hp E. destruct (DotP.csc_ndarray_rows_sorted_proof V vzero vadd vmul veqb Hs Hv a b n_in m p Ha Hp) as [r' [E' H]].
+  rewrite E in E'. injection E' as <-. exact H.
+Qed.
+
+(* C14.npz_roundtrip_exact *)
+Lemma cite_npz_roundtrip_exact (V : Type) (x : Npz.arr V) :
+  Npz.wf V x = true -> (Npz.class_of x = S_npz.KCOO \/ Npz.class_of x = S_npz.KGCXS) ->
+  Py.bind (Npz.save_members V x) (fun ms => Npz.load_members V ms) = Py.Ok x.
+Proof. apply NpzP.npz_roundtrip_exact_proof. Qed.
+
+Inductive citation := Cite (name : string) (P : Prop) (pf : P).
+
+Open Scope string_scope.
+Definition citations : list citation := [
+  Cite "C02.coo_getitem_den" _ cite_coo_getitem_basic;
+  Cite "C02.coo_getitem_one_array_partial" _ cite_coo_getitem_one_array;
+  Cite "C08.broadcast_to_den" _ cite_broadcast_to_canonical;
+  Cite "C08.broadcast_to_sorted_rule_sound" _ cite_broadcast_to_sorted_rule;
+  Cite "C09.coo_concat_canonical" _ cite_coo_concat_canonical;
+  Cite "C09.coo_stack_canonical" _ cite_coo_stack_canonical;
+  Cite "C09.indptr_splice_wf" _ cite_indptr_splice_wf;
+  Cite "C05.gcxs_from_coo_wf" _ cite_gcxs_from_coo_wf;
+  Cite "C05.change_axes_wf" _ cite_change_axes_wf_fits;
+  Cite "C03.gcxs_reduce_den_partial" _ cite_gcxs_reduce_wf;
+  Cite "C04.spcoo_den" _ cite_spcoo_nodup;
+  Cite "C04.spgemm_rows_sorted" _ cite_spgemm_rows_sorted;
+  Cite "C04.csc_ndarray_rows_sorted" _ cite_csc_ndarray_rows_sorted;
+  Cite "C14.npz_roundtrip_exact" _ cite_npz_roundtrip_exact
+].
+Close Scope string_scope.
+
+Definition citation_names : list string := map (fun c => match c with Cite n _ _ => n end) citations.
+
+(* every theorem the table cites is in the registry *)
+Definition cited_in_registry (e : jentry) : bool :=
+  match j_just e with
+  | JustifiedBy n _ => existsb (String.eqb n) citation_names
+  | _ => true
+  end.
